@@ -221,6 +221,8 @@ def big_file_cases():
 
 
 N_EXTRA_BIG = 3
+# stream chunks of mixed sizes (a short chunk directly before / after a long one, sizes around 1 KiB, single bytes between long chunks)
+MIXED_PIECES = [[20, 1 << 20], [40000, 1, 1 << 20], [7, 3000, 1, 1024, 100, 65536], [1023, 1024, 1025, 1], [1, 70000]]
 
 
 def shard_files(shard, nshards, tier, seed, scratch):
@@ -243,9 +245,12 @@ def shard_files(shard, nshards, tier, seed, scratch):
                 got_bulk = norm(drv.call(dict(cfg, cmd='read_csv', mode='bulk', path=path)))
                 got_small = norm(drv.call(dict(cfg, cmd='read_csv', mode='file', path=path, high_water_mark=4099)))
                 got_huge = norm(drv.call(dict(cfg, cmd='read_csv', mode='file', path=path, high_water_mark=1 << 20)))
-                stats.evaluations += 4
-                stats.nontrivial_counted += 3
-                for label, got in (('createReadStream-default', got_file), ('bulk', got_bulk), ('createReadStream-4099', got_small), ('createReadStream-1MiB', got_huge)):
+                mixed = []
+                for sizes in MIXED_PIECES:
+                    mixed.append(('pieces-' + '/'.join(str(x) for x in sizes), norm(drv.call(dict(cfg, cmd='read_csv', mode='file-pieces', path=path, piece_sizes=sizes)))))
+                stats.evaluations += 4 + len(mixed)
+                stats.nontrivial_counted += 3 + len(mixed)
+                for label, got in [('createReadStream-default', got_file), ('bulk', got_bulk), ('createReadStream-4099', got_small), ('createReadStream-1MiB', got_huge)] + mixed:
                     if got != exp:
                         key = ('files', label)
                         if key not in seen:
@@ -258,7 +263,7 @@ def shard_files(shard, nshards, tier, seed, scratch):
                                 d['first_diff'] = next((i for i, (x, y) in enumerate(zip(got[0], exp[0])) if x != y), None)
                             failures.append({'leg': 'files', 'clause': 'large-file-' + label, 'detail': d, 'case': {'kind': 'bigfile', 'name': name, 'policy': policy}})
             stats.bump('big-files')
-        stats.samples.append({'big_files': [n for n, _ in cases][:6], 'modes': ['fs.createReadStream (64 KiB chunks)', 'bulk', 'fs.createReadStream highWaterMark=4099', 'fs.createReadStream highWaterMark=1MiB']})
+        stats.samples.append({'big_files': [n for n, _ in cases][:6], 'modes': ['fs.createReadStream (64 KiB chunks)', 'bulk', 'fs.createReadStream highWaterMark=4099', 'fs.createReadStream highWaterMark=1MiB', 'Readable.from(pieces of mixed sizes %s)' % MIXED_PIECES]})
     finally:
         drv.close()
     return {'stats': stats.export(), 'failures': failures}
